@@ -44,6 +44,10 @@ CASES = [
     {"id": "lit-inf", "data": "[(1,)]", "schema": "['a']", "select": "[F.lit(inf).alias('x'), F.lit(-inf).alias('y')]"},
     {"id": "lit-floatlist", "data": "[(1,)]", "schema": "['a']", "select": "[F.array(F.lit(0.1)).alias('x')]"},
     {"id": "lit-nan", "data": "[(1,)]", "schema": "['a']", "select": "[F.lit(nan).alias('x')]"},
+    {"id": "nan-narrows-column", "data": "[(nan,), (0.1,)]", "schema": "None"},
+    {"id": "nan-narrows-list", "data": "[([nan, 0.1],)]", "schema": "None"},
+    {"id": "nan-narrows-declared", "data": "[(0.1,), (nan,)]", "schema": "'a double'"},
+    {"id": "operand-inf", "data": "[(1.5,), (inf,)]", "schema": "['f']", "select": "[(F.col('f') == inf).alias('x')]"},
     # --- strings
     {"id": "nul-string", "data": "[('a\\x00b',)]", "schema": "None"},
     {"id": "neg-zero", "data": "[(-0.0,)]", "schema": "None"},
